@@ -5,6 +5,7 @@ from fractions import Fraction as F
 from vlib import siref, world as W, qtyops as Q
 from vlib.core import cn, cq, cbool, clist
 from vlib.qtyops import frs, num_value
+from props import C07 as T07
 
 PID = 'C19'
 PROPERTY_FILE = 'Properties/C19.v'
@@ -91,6 +92,20 @@ def gen_cases(rng, tier):
             if views.units[u]['cls'] == views.units[v]['cls'] else a
         cases.append({'k': 'q', 'world': world, 'x': ['q', _spell(rng, a), u],
                       'y': ['q', _spell(rng, b), v]})
+    # terms: pairs of term expressions (C07's generator and its independent evaluator of
+    # what a term denotes): equal terms must hash equal; in particular a one-item term of
+    # a DERIVED element and its normal form / definition (seeded C19-d)
+    for _ in range(150 if tier == 'quick' else 2000):
+        c = T07._Ctx(rng)
+        cases.append({'k': 't', 't': c.case(['hasheq', *c.pair()])})
+    for _ in range(12 if tier == 'quick' else 120):
+        c = T07._Ctx(rng, rng.choice(['units', 'classes']))
+        for _ in range(4):
+            u = c.nonnum()
+            if u:
+                t = c.mk([[u, rng.choice([1, 1, 2, -1])]])
+                cases.append({'k': 't', 't': c.case(['hasheq', t, ['norm', t]])})
+                cases.append({'k': 't', 't': c.case(['hasheq', ['norm', t], t])})
     curs = ['EUR', 'USD', 'JPY', 'HKD']
     for _ in range(80 if tier == 'quick' else 800):                 # exchange rates
         u, t = rng.sample(curs, 2)
@@ -106,6 +121,8 @@ def gen_cases(rng, tier):
 def impl_run(case):
     W.set_mode('MHEVEN')
     k = case['k']
+    if k == 't':
+        return {'t': T07.impl_run(case['t'])}
     if k == 'r':
         from quantity.money import Money, ExchangeRate
         for c in ('EUR', 'USD', 'JPY', 'HKD'):
@@ -134,6 +151,8 @@ CUR = {'EUR': 1, 'USD': 2, 'JPY': 3, 'HKD': 4}
 
 def coq_case(case, r):
     k = case['k']
+    if k == 't':
+        return None          # terms: C07's model (Proofs/C07Proofs.vo is an obligation here)
     if k == 'r':
         def rate(spec, fields):
             return (f"(mkRate {cn(CUR[spec[0]])} {cn(CUR[spec[2]])} {cq(F(fields[0]))} "
@@ -154,6 +173,8 @@ def coq_model_term(case, r):
 
 
 def oracle(case, r):
+    if case['k'] == 't':
+        return T07.oracle(case['t'], r['t'])
     eq = r['eq'] if case['k'] == 'r' else (r['eq'].get('v') if r['eq']['k'] == 'bool' else None)
     if eq is True:
         if not r['heq']:
@@ -172,6 +193,8 @@ def oracle(case, r):
 
 
 def _show(case):
+    if case['k'] == 't':
+        return f"terms {case['t']['query']}"
     if case['k'] == 'q':
         return f"{case['x'][1][1]} {case['x'][2]} and {case['y'][1][1]} {case['y'][2]}"
     if case['k'] == 'u':
@@ -180,6 +203,8 @@ def _show(case):
 
 
 def classify(case, r, msg):
+    if case['k'] == 't':
+        return None
     if 'hashes differ' in msg or 'a set holds both' in msg:
         if case['k'] == 'q':
             views = W.Views(case['world'])
@@ -190,11 +215,17 @@ def classify(case, r, msg):
 
 
 def labels(case, r):
+    if case['k'] == 't':
+        v = r['t']['res']
+        return ['kind=t', f"eq={v.get('v', v.get('k'))}"]
     eq = r['eq'] if case['k'] == 'r' else (r['eq'].get('v') if r['eq']['k'] == 'bool' else r['eq'].get('e'))
     return ['kind=' + case['k'], f"eq={eq}", f"hash-equal={r['heq']}"]
 
 
 def nontrivial_key(case, r):
+    if case['k'] == 't':
+        v = r['t']['res'].get('v')
+        return str(case['t']['query']) if v is True else None
     eq = r['eq'] if case['k'] == 'r' else (r['eq'].get('v') if r['eq']['k'] == 'bool' else None)
     if eq is not True:
         return None
